@@ -2,8 +2,14 @@
 
 use lightning::chain;
 use std::collections::HashMap;
+#[cfg(not(feature = "verif"))]
 use std::sync::atomic::{AtomicU32, Ordering};
+#[cfg(not(feature = "verif"))]
 use std::sync::{Arc, Mutex};
+#[cfg(feature = "verif")]
+use std::sync::{atomic::Ordering, Arc};
+#[cfg(feature = "verif")]
+use crate::verif_sync::{AtomicU32, Mutex};
 
 use teos_common::appointment::{compute_appointment_slots, Locator};
 use teos_common::constants::ENCRYPTED_BLOB_MAX_SIZE;
@@ -912,5 +918,29 @@ mod tests {
             gatekeeper.last_known_block_height.load(Ordering::Relaxed),
             prev_block_header.height
         );
+    }
+}
+
+#[cfg(feature = "verif")]
+impl Gatekeeper {
+    /// Canonical rendering of the in-memory state. Used by the verification harness.
+    pub fn verif_snapshot(&self) -> String {
+        let mut users: Vec<String> = self
+            .registered_users
+            .lock()
+            .unwrap()
+            .iter()
+            .map(|(id, info)| {
+                format!(
+                    "{id}:{}/{}/{}",
+                    info.available_slots, info.subscription_start, info.subscription_expiry
+                )
+            })
+            .collect();
+        users.sort();
+        format!(
+            "height={} users={users:?}",
+            self.last_known_block_height.load(Ordering::Acquire)
+        )
     }
 }
